@@ -351,6 +351,16 @@ func jobCheckpointCursors(ck *snapshotpb.JobCheckpoint) map[int]int {
 }
 
 func (s *store) Read(path string) ([]byte, error) {
+	if strings.HasSuffix(path, "/checkpoints") && !s.g.isBooting() {
+		// savepoint artifact creation reads every operator's DKV checkpoints document (gate point PStoreRead)
+		var b []byte
+		err := s.g.call(&Call{Point: PStoreRead, From: "job", To: "store", Path: path}, func() error {
+			var e error
+			b, e = s.dir.Read(path)
+			return e
+		})
+		return b, err
+	}
 	b, err := s.dir.Read(path)
 	if err == nil && strings.HasSuffix(path, ".snapshot") {
 		ck := &snapshotpb.JobCheckpoint{}
